@@ -43,13 +43,13 @@ Definition stat_matches (a b : stat) (o : sopts) : bool :=
 (* ---------------------------------------------------------------- modes --------------------------- *)
 Inductive emode := MFile | MExec | MLink | MCommit | MDirSparse.
 (* what lstat says about something that is not a directory *)
-Inductive fkind := KFile (exec : bool) | KLink.
+Inductive fkind := KFile (exec : bool) (* exec: S_IXUSR is set *) | KLink.
 Inductive mchange := ChType | ChExec | ChNone.
 
 Definition k_is_file (k : fkind) := match k with KFile _ => true | KLink => false end.
 Definition k_is_link (k : fkind) := match k with KLink => true | _ => false end.
-(* Metadata::is_executable: owner x bit; symlinks have mode 0777 *)
-Definition k_is_exec (k : fkind) := match k with KFile x => x | KLink => true end.
+(* Metadata::is_executable: a regular file with the OWNER's execute bit (S_IXUSR) — group/other bits do not count *)
+Definition k_is_exec (k : fkind) := match k with KFile x => x | KLink => false end.
 
 (* Mode::change_to_match_fs(self, stat, has_symlinks, executable_bit), for a non-directory on disk;
    the payload of Change::Type is not observable through gix-status and left out *)
